@@ -397,6 +397,19 @@ class RiemannFanPoint(Obligation):
             d['L_head'], d['L_tail'] = xd0 + t * V[0], xd0 + t * V[1]
         if pat[2] == 'R':
             d['R_tail'], d['R_head'] = xd0 + t * V[-2], xd0 + t * V[-1]
+        if Mode.symbolic(mk):
+            # only the paths on which the point lies inside a fan carry claims: the others are dropped here (one more
+            # branch decision, mostly implied by the driver's own region decisions) instead of costing solver time later
+            x = d['x']
+            inside = None
+            if pat[0] == 'R':
+                inside = (x > d['L_head']) & (x < d['L_tail'])
+            if pat[2] == 'R':
+                c = (x > d['R_tail']) & (x < d['R_head'])
+                inside = c if inside is None else (inside | c)
+            if not bool(inside):
+                from symx.engine import PathAbort
+                raise PathAbort()
         return d
 
     def domain(self, V):
